@@ -98,6 +98,107 @@ func ownerName(n yang.Node) string {
 	return rn.Name
 }
 
+// pinned is a fixed family of sets for bases that reach an identity through an import that
+// names a revision: module a in two or three revisions, each with identity root (the newest
+// also with a derived identity of its own); importers that pin one revision, pin none, or
+// (YANG 1.1) import two revisions under two prefixes. Every derived identity is listed under
+// the root of the revision its base statement denotes and under no other, and an identityref
+// points at that root. All load orders.
+func pinned(j *job.Job, s *job.Sink, c int64) {
+	r := prng.For(j.Seed, "C11", "pinned", c)
+	revs := []string{"2019-01-01", "2020-01-01", "2021-01-01"}[:2+r.Intn(2)]
+	type imp struct{ name, body string }
+	var texts [][2]string
+	want := map[string][]string{} // revision -> names derived from its root
+	for k, rv := range revs {
+		extra := ""
+		if k == len(revs)-1 {
+			extra = " identity newest { base root; }"
+			want[rv] = append(want[rv], "newest")
+		}
+		texts = append(texts, [2]string{"a@" + rv + ".yang", fmt.Sprintf("module a { yang-version 1.1; namespace \"urn:a\"; prefix a; revision %s; identity root;%s }", rv, extra)})
+	}
+	latest := revs[len(revs)-1]
+	refWant := map[string]string{} // leaf name -> revision its identityref must point at
+	nimp := 1 + r.Intn(3)
+	for i := 0; i < nimp; i++ {
+		name := fmt.Sprintf("u%d", i)
+		switch r.Intn(3) {
+		case 0: // pins one revision
+			rv := revs[r.Intn(len(revs))]
+			texts = append(texts, [2]string{name + ".yang", fmt.Sprintf("module %s { yang-version 1.1; namespace \"urn:%s\"; prefix %s; import a { prefix a; revision-date %s; } identity d%s { base a:root; } leaf r%s { type identityref { base a:root; } } }", name, name, name, rv, name, name)})
+			want[rv] = append(want[rv], "d"+name)
+			refWant["r"+name] = rv
+		case 1: // pins none: the latest
+			texts = append(texts, [2]string{name + ".yang", fmt.Sprintf("module %s { yang-version 1.1; namespace \"urn:%s\"; prefix %s; import a { prefix a; } identity d%s { base a:root; } typedef t%s { type identityref { base a:root; } } leaf r%s { type t%s; } }", name, name, name, name, name, name, name)})
+			want[latest] = append(want[latest], "d"+name)
+			refWant["r"+name] = latest
+		default: // two revisions under two prefixes
+			r1, r2 := revs[0], revs[len(revs)-1]
+			texts = append(texts, [2]string{name + ".yang", fmt.Sprintf("module %s { yang-version 1.1; namespace \"urn:%s\"; prefix %s; import a { prefix ao; revision-date %s; } import a { prefix an; revision-date %s; } identity do%s { base ao:root; } identity dn%s { base an:root; } identity both%s { base ao:root; base an:root; } leaf r%s { type identityref { base ao:root; } } }", name, name, name, r1, r2, name, name, name, name)})
+			want[r1] = append(want[r1], "do"+name, "both"+name)
+			want[r2] = append(want[r2], "dn"+name, "both"+name)
+			refWant["r"+name] = r1
+		}
+	}
+	cs := []map[string]string{}
+	for _, t := range texts {
+		cs = append(cs, map[string]string{"name": t[0], "text": t[1]})
+	}
+	s.Current(c, cs)
+	s.Count("graphs", 1)
+	s.Count("pinned_revision_sets", 1)
+	s.Count("nontrivial", 1)
+	for rep := 0; rep < 4; rep++ {
+		perm := r.Perm(len(texts))
+		ms := yang.NewModules()
+		ok := true
+		for _, i := range perm {
+			if err := ms.Parse(texts[i][1], texts[i][0]); err != nil {
+				s.Violation(c, j.CaseID(c), "C11.closure", "parse-error", err.Error(), cs, nil)
+				ok = false
+				break
+			}
+		}
+		if !ok {
+			return
+		}
+		if errs := ms.Process(); len(errs) > 0 {
+			s.Violation(c, j.CaseID(c), "C11.closure", "spurious-error", fmt.Sprintf("revision-pinned bases: %v", errs[0]), cs, nil)
+			return
+		}
+		roots := map[string]*yang.Identity{}
+		for _, rv := range revs {
+			m := ms.Modules["a@"+rv]
+			if m == nil || len(m.Identity) == 0 {
+				s.Violation(c, j.CaseID(c), "C11.closure", "identity-missing", "a@"+rv+":root", cs, nil)
+				return
+			}
+			roots[rv] = m.Identity[0]
+			var got []string
+			for _, v := range m.Identity[0].Values {
+				got = append(got, v.Name)
+			}
+			w := append([]string{}, want[rv]...)
+			sort.Strings(got)
+			sort.Strings(w)
+			s.Count("identity_checks", 1)
+			if strings.Join(got, " ") != strings.Join(w, " ") {
+				s.Violation(c, j.CaseID(c), "C11.closure", "closure", fmt.Sprintf("a@%s:root lists %v, its derivations through the imports that denote this revision are %v", rv, got, w), cs, nil)
+				return
+			}
+		}
+		for leaf, rv := range refWant {
+			e := yang.ToEntry(ms.Modules["u"+leaf[2:]]).Dir[leaf]
+			s.Count("identityref_checks", 1)
+			if e == nil || e.Type == nil || e.Type.IdentityBase != roots[rv] {
+				s.Violation(c, j.CaseID(c), "C11.closure", "identityref-wrong-object", fmt.Sprintf("leaf %s does not point at the identity root of a@%s, which its import denotes", leaf, rv), cs, nil)
+				return
+			}
+		}
+	}
+}
+
 // Run generates identity DAGs over several modules and submodules, loads each in
 // several shuffled orders and compares every identity's Values with the graph closure.
 func Run(j *job.Job, s *job.Sink) {
@@ -106,6 +207,10 @@ func Run(j *job.Job, s *job.Sink) {
 		reps = 24
 	}
 	for c := j.Start; c < j.Start+j.Count; c++ {
+		if c%25 == 7 {
+			pinned(j, s, c) // one case in 25 is a set of the revision-pinned family
+			continue
+		}
 		r := prng.For(j.Seed, "C11", j.Family, c)
 		var files []*mod
 		var mods []*mod
@@ -272,6 +377,15 @@ func Run(j *job.Job, s *job.Sink) {
 						}
 						id.bases = append(id.bases, cand)
 						id.bq = append(id.bq, q)
+						// now and then the same base is named a second time in its other spelling
+						// (with and without the prefix of the file): one base, listed once
+						if cand.mod == m && r.Intn(5) == 0 {
+							alt := f.prefix + ":" + cand.name
+							if q == alt {
+								alt = cand.name
+							}
+							id.bq = append(id.bq, alt)
+						}
 					}
 					f.ids = append(f.ids, id)
 					all = append(all, id)
